@@ -531,6 +531,12 @@ class ImplRunner:
         frames = ref.segment(data, txdl=op['txdl'], minlen=op.get('minlen'), padding=op.get('padding'), prefix=pre)
         self.plain(line, ' '.join(hexs(f) for f in frames))
 
+    def do_specreasm(self, op):
+        """the payload a foreign stream was built from (harness side) vs the Lean reference decoder `Spec.reassemble` (driver side)"""
+        frames = [bytes(f) for f in op['frames']]
+        line = 'specreasm %d %s' % (op['prelen'], ' '.join(hexs(f) for f in frames))
+        self.plain(line, hexs(bytes(op['payload'])))
+
     def run(self, scenario):
         for op in scenario:
             getattr(self, 'do_' + op['op'])(op)
